@@ -3,6 +3,7 @@ import ast
 
 from ..astutil import unparse, short, dotted, const_value, get_kw, walk_local, names_in
 from ..cfg import cfg_of
+from ..rules import dom
 from ..srcmodel import AnalysisError
 from ..rules import tables as T
 from ..engine import get_cg
@@ -83,6 +84,13 @@ def run(ctx):
                 continue
             binary = 'b' in mode
             ok = binary or (enc is not None and isinstance(const_value(enc), str))
+            if not ok and enc is not None and isinstance(enc, ast.Name) and owner is not None and enc.id in owner.params:
+                # the encoding is the caller's own argument, and the call is taken only when that argument was given (`<p> is None` is false on every path
+                # to it): the locale still decides nothing
+                g_ = cfg_of(owner.node)
+                n_ = next((x for x in g_.stmt_nodes() if any(y is call for e_ in x.exprs() for y in ast.walk(e_))), None)
+                if n_ is not None and any(t.kind == 'test' and lab == 'F' and unparse(t.ast) == f"{enc.id} is None" for t, lab in dom.guards_of(g_, n_)):
+                    ok = True
             res.check(ok, 'R-ENC', where, f"{short(call)}: binary mode or explicit encoding",
                       fail_detail="text mode without encoding=: the process locale decides how the bytes are decoded/encoded",
                       key=f"R-ENC|locale|{where}", line=call.lineno)
